@@ -339,6 +339,121 @@ func wedged(be backend, opts pubsub.BrokerOptions, backlog int, call string, cal
 	}
 }
 
+// lossy: a load-shedding LIFO broker with a single slot. A burst may evict
+// older messages, but a Force push keeps the NEWEST one, so once every Publish
+// has returned and the subscriber keeps reading the last message of the burst
+// is delivered, and the broker still works for a message published afterwards.
+func lossy(capacity, m int, parallel bool) vs.Scenario {
+	return func() (func(), func(*vs.End) (string, string)) {
+		var got []int
+		quiet1, quiet2 := false, false
+		var at1, at2 []int
+		body := func() {
+			parent, cancelParent := context.WithCancel(context.Background())
+			sctx, cancelSub := context.WithCancel(context.Background())
+			b := pubsub.NewLIFOBroker[int](parent, pubsub.BrokerOptions{ParallelDispatch: parallel}, capacity)
+			fin := make(chan struct{}, 2)
+			subscribe(sctx, b, &got, fin)
+			go func() {
+				for i := 1; i <= m; i++ {
+					b.Publish(sctx, i)
+				}
+				fin <- struct{}{}
+			}()
+			vs.Quiesce()
+			quiet1, at1 = true, append([]int(nil), got...)
+			b.Publish(sctx, 99)
+			vs.Quiesce()
+			quiet2, at2 = true, append([]int(nil), got...)
+			b.Stop()
+			b.Wait(context.Background())
+			cancelSub()
+			<-fin
+			<-fin
+			cancelParent()
+		}
+		has := func(l []int, v int) bool {
+			for _, x := range l {
+				if x == v {
+					return true
+				}
+			}
+			return false
+		}
+		check := func(e *vs.End) (string, string) {
+			where := fmt.Sprintf("lifo(capacity=%d) burst=%d parallel=%v", capacity, m, parallel)
+			if quiet1 && !has(at1, m) {
+				return "stalled-with-undelivered-message", where + fmt.Sprintf(": at quiescence the newest message %d had not been delivered (got %v)", m, at1)
+			}
+			if quiet2 && !has(at2, 99) {
+				return "stalled-with-undelivered-message", where + fmt.Sprintf(": a message published after the burst was never delivered (got %v)", at2)
+			}
+			if t, d := endTag(e); t != "" {
+				return "not-clean-after-stop/" + t, where + ": " + d
+			}
+			return "", ""
+		}
+		return body, check
+	}
+}
+
+// backendClosed: the owner of the Queue/Deque behind the broker closes it;
+// a Publish after that is accepted by the event loop, which then winds the
+// broker down. Stop, Wait and parent cancel must still return and every
+// goroutine exit.
+func backendClosed(kind string, publishes int, stopHow string) vs.Scenario {
+	return func() (func(), func(*vs.End) (string, string)) {
+		waitReturned := false
+		body := func() {
+			parent, cancelParent := context.WithCancel(context.Background())
+			cctx, cancelClients := context.WithCancel(context.Background())
+			var b *pubsub.Broker[int]
+			var closeBackend func()
+			if kind == "queue" {
+				q := pubsub.NewUnlimitedQueue[int]()
+				b, closeBackend = pubsub.NewQueueBroker(parent, q, pubsub.BrokerOptions{}), func() { _ = q.Close() }
+			} else {
+				d := pubsub.NewUnlimitedDeque[int]()
+				b, closeBackend = pubsub.NewDequeBroker(parent, d, pubsub.BrokerOptions{}), func() { _ = d.Close() }
+			}
+			var got []int
+			fin := make(chan struct{}, 2)
+			subscribe(cctx, b, &got, fin)
+			closeBackend()
+			go func() {
+				for i := 1; i <= publishes; i++ {
+					b.Publish(cctx, i)
+				}
+				fin <- struct{}{}
+			}()
+			vs.Quiesce()
+			switch stopHow {
+			case "stop":
+				b.Stop()
+			case "cancel":
+				cancelParent()
+			}
+			b.Wait(context.Background())
+			waitReturned = true
+			cancelClients()
+			<-fin
+			<-fin
+			cancelParent()
+		}
+		check := func(e *vs.End) (string, string) {
+			where := fmt.Sprintf("%s back-end closed by its owner, %d publishes, then %s", kind, publishes, stopHow)
+			if t, d := endTag(e); t != "" {
+				if !waitReturned {
+					return "wait-or-stop-blocked-on-" + stopHow + "/" + t, where + ": " + d
+				}
+				return "not-clean-after-" + stopHow + "/" + t, where + ": " + d
+			}
+			return "", ""
+		}
+		return body, check
+	}
+}
+
 func build(tier string) ([]runner.Instance, time.Duration) {
 	bound, budget := 1, 100*time.Second
 	maxM := 2
@@ -370,6 +485,26 @@ func build(tier string) ([]runner.Instance, time.Duration) {
 		for _, call := range []string{"Publish", "Subscribe", "Unsubscribe", "Stats"} {
 			for _, stopped := range []bool{false, true} {
 				out = append(out, runner.Instance{Group: "client-cancel/" + be.name, Name: fmt.Sprintf("client-cancel/%s/%s,stopped=%v", be.name, call, stopped), Bound: bound + 1, Scenario: clientCancel(be, call, stopped)})
+			}
+		}
+	}
+	for capacity := 1; capacity <= 2; capacity++ {
+		for m := 2; m <= maxM+1; m++ {
+			for _, par := range []bool{false, true} {
+				if par && tier != "thorough" {
+					continue
+				}
+				out = append(out, runner.Instance{Group: "lossy/lifo", Name: fmt.Sprintf("lossy/lifo/capacity=%d,m=%d,par=%v", capacity, m, par), Bound: bound, Scenario: lossy(capacity, m, par)})
+			}
+		}
+	}
+	for _, kind := range []string{"queue", "deque"} {
+		for n := 0; n <= 2; n++ {
+			for _, how := range []string{"stop", "cancel", "wait-only"} {
+				if how == "wait-only" && n == 0 {
+					continue // nothing ends the broker: Wait may block
+				}
+				out = append(out, runner.Instance{Group: "backend-closed/" + kind, Name: fmt.Sprintf("backend-closed/%s/publishes=%d,%s", kind, n, how), Bound: bound + 1, Scenario: backendClosed(kind, n, how)})
 			}
 		}
 	}
